@@ -1,0 +1,22 @@
+//go:build verif
+
+package base
+
+import "ti/verifhook"
+
+func init() {
+	verifhook.Register("base.TFrame", &TFrame)
+	verifhook.Register("base.ArgumentSnapShot", &ArgumentSnapShot)
+	verifhook.Register("base.BuiltinClasses", &BuiltinClasses)
+	verifhook.Register("base.GlobT", &GlobT)
+	verifhook.Register("base.ClassInheritanceMap", &ClassInheritanceMap)
+	verifhook.Register("base.defaultGenId", &defaultGenId)
+	verifhook.Register("base.DefinedClassTable", &DefinedClassTable)
+	verifhook.Register("base.TSignatureArticles", &TSignatureArticles)
+	verifhook.Register("base.TSignatures", &TSignatures)
+	verifhook.Register("base.TSignatureDocument", &TSignatureDocument)
+	verifhook.Register("base.MethodCallPoint", &MethodCallPoint)
+	verifhook.Register("base.MethodCalleePoint", &MethodCalleePoint)
+	verifhook.Register("base.SpecialCodeComments", &SpecialCodeComments)
+	verifhook.Register("base.tPower", &tPower)
+}
